@@ -5,3 +5,5 @@ pub mod json;
 pub mod http;
 pub mod net;
 pub mod ws;
+#[cfg(not(hvt))]
+pub mod net_app;
